@@ -236,6 +236,7 @@ def write_instances(tabs, info, kinds):
     frag = json.load(open(os.path.join(vlib.VERIF, 'tools', 'fragment.json')))
     have = {t['name'] for t in tabs if t['modelled']}
     clsA, clsB, clsC, tolA = set(frag['classA']), set(frag.get('classB', [])), set(frag.get('classC', [])), set(frag.get('tolA', []))
+    clsCp = set(frag.get('classCp', []))
     mods = []
     for kind in kinds:
         fkey = KINDS[kind][0] if kind in KINDS else {'c07h': 'wrapC07'}.get(kind, 'wrapC01')
@@ -258,10 +259,10 @@ def write_instances(tabs, info, kinds):
                 if kind == 'c04':
                     if n not in clsA or n not in tolA:
                         continue
-                elif n not in clsA and n not in clsB and n not in clsC:
+                elif n not in clsA and n not in clsB and n not in clsC and n not in clsCp:
                     continue
                 for tol in ((20,) if kind == 'c03' else (5, 10, 20)):
-                    eng = ('(.A wf_%s_%d)' if n in clsA else '(.B wfB_%s_%d)' if n in clsB else '(.C wfC_%s_%d)') % (i, tol)
+                    eng = ('(.A wf_%s_%d)' if n in clsA else '(.B wfB_%s_%d)' if n in clsB else '(.C wfC_%s_%d)' if n in clsC else '(.Cp wfCp_%s_%d)') % (i, tol)
                     if kind == 'c03':
                         lines.append('theorem %s_%s : C03Holds IRGen.P_%s IRGen.W_%s := C03_holds _ _ ⟨%d, 1⟩ ⟨by decide, by decide⟩ %s c03w_%s' % (kind.upper(), i, i, i, tol, eng, i))
                     elif kind == 'c04':
